@@ -131,6 +131,12 @@ end finish
 section d3
 variable [LT κ] [DecidableLT κ] [DecidableEq κ] [DecidableEq γ] {ν ρ : Type}
 
+/-- the column of the layer found under a label (no column when there is none) -/
+def optCol {α β : Type} (o : Option α) (f : α → List β) : List β :=
+  match o with
+  | some a => f a
+  | none => []
+
 /-- a 3-D crosstab DataFrame, column oriented: one column per selected layer -/
 structure CTable3 (κ γ ρ : Type) where
   zone : List κ
@@ -160,10 +166,8 @@ def crosstabNumpy3d (strip sortedRows : Bool) (zones : Nat → X κ) (layers : L
   let nsel := (uniq.filter sel).length
   if labels.length ≠ nsel then none
   else some { zone := labels, cats := cats
-              cols := cats.map (fun c =>
-                match layers.find? (fun l => l.1 == c) with
-                | some l => layerCol strip zones l.2 valid func uniq sel perm
-                | none => []) }
+              cols := cats.map (fun c => optCol (layers.find? (fun l => l.1 == c))
+                (fun l => layerCol strip zones l.2 valid func uniq sel perm)) }
 
 /-- `_crosstab_dask_numpy(...).compute()`, 3-D (`agg='count'` only): per-block columns added -/
 def crosstabDask3d (strip sortedRows : Bool) (zones : Nat → X κ) (layers : List (γ × (Nat → ν)))
@@ -175,10 +179,8 @@ def crosstabDask3d (strip sortedRows : Bool) (zones : Nat → X κ) (layers : Li
   let uniq := uniqueZones zones cells
   let ids := selectIds uniq zoneIds
   let sel := fun u => ids.contains u
-  let per := blocks.map (fun b => cats.map (fun c =>
-    match layers.find? (fun l => l.1 == c) with
-    | some l => layerCol strip (Block.fn b.zc zones) (Block.fn b.vc l.2) valid List.length uniq sel b.perm
-    | none => []))
+  let per := blocks.map (fun b => cats.map (fun c => optCol (layers.find? (fun l => l.1 == c))
+    (fun l => layerCol strip (Block.fn b.zc zones) (Block.fn b.vc l.2) valid List.length uniq sel b.perm)))
   match per with
   | [] => none
   | first :: rest =>
